@@ -223,7 +223,7 @@ def render_batch(pairs):
     return out
 
 
-NAMES = [b"a", b"B", b"c", b"d.e", b"f_g", b"#h"]
+NAMES = [b"a", b"B", b"c", b"d.e", b"f_g", b"#h", b"_k"]
 ODD_NAMES = [b"", b"a b", b"\xe9", b"A", b"b", b"x\"y", b"q\\r", b"1", b"-", b"r001"]
 TAPE_CHARS = "0123456789abcdefghijklmnopqrstuvwxyz"
 
